@@ -57,13 +57,14 @@ Definition ok_self (r : res) : bool := match r with Ok _ | Err EACCES | Err EPER
 Definition ok_other (r : res) : bool := match r with Err EINVAL => false | _ => true end.
 Definition is_ok (r : res) : bool := match r with Ok _ => true | _ => false end.
 Definition ok_class (o : oclass) (r : res) : bool :=
-  match o with Strict => ok_self r | MayVanish => ok_other r | MayVanishOrInval => true end.
+  match o with Strict | DirSurvives => ok_self r | MayVanish => ok_other r | MayVanishOrInval => true end.
 (* [gf]: which pids are gone at the moment of the access (the base answers of listings depend on it) *)
 Definition base_ok (opt : label -> oclass) (w : world) : Prop :=
   forall gf l cur,
     match rwho w l cur with
     | Global => is_ok (w_base w gf (l_kind l) Global (l_file l) cur) = true
     | Self => ok_class (opt l) (w_base w gf (l_kind l) Self (l_file l) cur) = true
+              /\ (w_half w = true -> is_piddir l = true -> opt l = DirSurvives)
     | Other => ok_class (opt l) (w_base w gf (l_kind l) Other (l_file l) cur) = true
     | Ext => ok_class (opt l) (w_base w gf (l_kind l) Ext (l_file l) cur) = true
     | Any => True
@@ -85,6 +86,9 @@ Definition opt_race (l : label) : oclass :=
 (* kernel thread / zombie: in addition the exe and cwd links report ENOENT while the process is listed *)
 Definition opt_links (l : label) : oclass :=
   match l_file l with FExe | FCwd => MayVanish | _ => opt_race l end.
+(* ... and the half-removed vanish mode is possible: /proc/<pid> may survive its entries *)
+Definition opt_half (l : label) : oclass :=
+  match l_file l with FDir => DirSurvives | _ => opt_links l end.
 (* exe only: a kernel thread (its cwd link is there) *)
 Definition opt_exe (l : label) : oclass :=
   match l_file l with FExe => MayVanish | _ => opt_race l end.
